@@ -432,15 +432,22 @@ func (c *Cluster) Project() State {
 	_ = c.base.List(ctx, &sets)
 	for i := range sets.Items {
 		x := &sets.Items[i]
-		s := SettingS{NS: x.Namespace, Name: x.Name, Age: ageUnits(x.CreationTimestamp, now), Status: string(x.Status.Status)}
+		s := SettingS{NS: x.Namespace, Name: x.Name, Age: ageUnits(x.CreationTimestamp, now), Status: string(x.Status.Status),
+			Born: int(x.CreationTimestamp.Unix()-c.startUnix) + c.VNow*int(Unit/time.Second)}
 		if x.Spec.Reference != nil {
 			s.Ref = x.Spec.Reference.Name
 		}
 		s.Sel = x.Spec.NodeSelector.MatchLabels[GroupLabel]
 		for _, e := range x.Spec.NodeSelector.MatchExpressions {
-			if e.Key == GroupLabel && len(e.Values) == 1 && e.Operator == metav1.LabelSelectorOpIn {
-				s.Sel = e.Values[0]
+			if e.Key == GroupLabel && len(e.Values) >= 1 && e.Operator == metav1.LabelSelectorOpIn {
+				vs := append([]string{}, e.Values...)
+				sort.Strings(vs)
+				s.Sel = strings.Join(vs, "+")
 			}
+		}
+		s.Sels = []string{}
+		if s.Sel != "" {
+			s.Sels = strings.Split(s.Sel, "+")
 		}
 		s.Res = "tmpl"
 		for _, ct := range x.Spec.Containers {
